@@ -20,13 +20,14 @@ PLAN = {"quick": {"cases": 2500, "jobs": 4, "timeout": 600},
 FLOORS = {"quick": {"equals.verdict.armed": 60000, "c17.expected_unequal_calls": 10000, "c17.expected_equal_calls": 10000},
           "thorough": {"equals.verdict.armed": 1500000}}
 PERT = ["none", "pitch", "onset_keep_order", "onset_change_order", "duration", "velocity", "channel", "ts_value", "ts_tick",
-        "ks_value", "ks_tick", "add_note"]
+        "ks_value", "ks_tick", "add_note", "channel_move", "channel_swap"]
 FLAGS = list(itertools.product([False, True], repeat=4))
 
 
 def make_case(rng, i, tier):
-    single = rng.random() < 0.7
-    chans = (rng.choice([0, 2]),) if single else (0, 1)
+    pert = PERT[i % len(PERT)]
+    single = rng.random() < 0.7 and pert not in ("channel_move", "channel_swap")
+    chans = (rng.choice([0, 2]),) if single else rng.choice([(0, 1), (0, 1, 2)])
     notes = gen.wf_notes(rng, rng.randint(1, 7), chans=chans, pitches=(60, 62, 64, 65), tmax=90, lmin=2, lmax=30)
     if not notes:
         notes = [[chans[0], 60, 0, 10, 5]]
@@ -42,7 +43,6 @@ def make_case(rng, i, tier):
         base["relabel"] = chans[0]  # signatures are built on channel 0: make the whole sequence single-channel
     if rng.random() < 0.3:
         base["pad"] = 150
-    pert = PERT[i % len(PERT)]
     other = {"notes": [list(n) for n in notes], "extra": [list(e) for e in extra], "start": rng.choice(["abs", "rel", "both"])}
     if single:
         other["relabel"] = chans[0]
@@ -64,6 +64,23 @@ def make_case(rng, i, tier):
         n[2] += 200
     elif pert == "add_note":
         other["notes"].append([chans[0], 70, rng.randrange(0, 90), 7, 3])
+    elif pert == "channel_move":
+        # one note moved to another channel that is in use anyway (both sequences keep the same SET of channels when the
+        # note's old channel still carries other notes)
+        used = sorted(set(x[0] for x in other["notes"]))
+        cand = [c for c in used if c != n[0]]
+        if cand:
+            n[0] = rng.choice(cand)
+        else:
+            applied = "none"
+    elif pert == "channel_swap":
+        used = sorted(set(x[0] for x in other["notes"]))
+        if len(used) >= 2:
+            a, b = used[0], used[1]
+            for x in other["notes"]:
+                x[0] = b if x[0] == a else (a if x[0] == b else x[0])
+        else:
+            applied = "none"
     elif pert == "channel":
         if single:
             for x in other["notes"]:
@@ -145,6 +162,8 @@ def run(case, ctx):
         exp_equal = pert == "none" or (pert in relax and fl[relax[pert]])
         if pert == "channel" and case["b"].get("relabel") != 5:
             exp_equal = None  # multi-channel relabel of a single note: the channel flag is outside the claim
+        if pert in ("channel_move", "channel_swap"):
+            exp_equal = None if fl[0] else False   # some note's channel differs: unequal unless channels are ignored
         if exp_equal is True:
             LOG.n("c17.expected_equal_calls", 2)
         elif exp_equal is False:
